@@ -229,7 +229,8 @@ def r5_finalize_order(cx):
     wc = b.calls(r"ClusterWriterProxy::<.*>::write_cluster$")
     fz = b.calls(r"ClusterWriterProxy::<.*>::finalize$")
     sc = b.calls(r"OutStream>::ser_callable$")
-    ok = len(wc) == 2 and len(fz) == 1 and len(sc) == 2
+    # (both slots flushed by two calls, or by one call inside a loop over the two slots)
+    ok = (len(wc) == 2 or (len(wc) == 1 and wc[0][0] in b.reach_after(wc[0][0]))) and len(fz) == 1 and len(sc) == 2
     if ok:
         # no write_cluster after the join; the join dominates the tables
         after = b.reach_after(fz[0][0], avoid=err)
